@@ -208,12 +208,24 @@ pub fn write_opens(run: &RunResult) -> BTreeMap<String, usize> {
     m
 }
 
+/// (path -> number of data writes to it)
+pub fn data_writes(run: &RunResult) -> BTreeMap<String, usize> {
+    let mut m = BTreeMap::new();
+    for e in &run.trace.events {
+        if let Some(p) = e.label.strip_prefix("fs.write.data $W/") {
+            *m.entry(p.to_string()).or_insert(0) += 1;
+        }
+    }
+    m
+}
+
 pub fn mutating_events(run: &RunResult) -> Vec<String> {
     run.trace
         .events
         .iter()
         .filter(|e| {
-            ["fs.write", "fs.remove", "fs.rename", "fs.copy", "fs.create_dir", "fs.hard_link"]
+            // opening a file is not a mutation by itself (a truncating open shows in the snapshot)
+            ["fs.write.data", "fs.remove", "fs.rename", "fs.copy", "fs.create_dir", "fs.hard_link"]
                 .iter()
                 .any(|p| e.label.starts_with(p))
         })
@@ -285,6 +297,9 @@ fn kinds_of_failure(ex: &Expected) -> String {
             }
             FileExpect::ConfigError(_) => {
                 kinds.insert("config-error");
+            }
+            FileExpect::WriteFailed => {
+                kinds.insert("write-error");
             }
             _ => {}
         }
@@ -408,7 +423,7 @@ fn describe_content(orig: &[u8], expected: Option<&[u8]>, got: &[u8]) -> &'stati
 /// Every file must hold its original bytes or its complete formatted text, as the model says.
 pub fn tree_oracle(property: &str, prefix: &str, inv: &Invocation, ex: &Expected, run: &RunResult, idx: usize) -> Vec<Violation> {
     let mut out = Vec::new();
-    let writes = write_opens(run);
+    let writes = data_writes(run);
     let abort = ex.mid_abort || ex.pre_abort.is_some();
     for (p, before) in &run.before.files {
         let Some(after) = run.after.files.get(p) else {
@@ -463,6 +478,9 @@ pub fn tree_oracle(property: &str, prefix: &str, inv: &Invocation, ex: &Expected
                 } else if !untouched {
                     out.push(v(property, format!("{prefix}/failing-file-touched"), format!("{p}: {r}"), idx));
                 }
+            }
+            Some(FileExpect::WriteFailed) => {
+                // bytes unconstrained; the status oracle demands that the failure is reported
             }
             Some(FileExpect::Same) => {
                 if !unchanged {
